@@ -56,6 +56,7 @@ class Keeper : public vf::Tracked {
   Keeper() : Tracked("gt::Keeper"), count(3) { vf::rec("call gt::Keeper::Keeper()=>" + vf::R(*this)); }
   void keep(std::shared_ptr<Arg> a) { vf::rec("call gt::Keeper::keep@" + vf::R(*this) + "(" + vf::R(a.get()) + ")=>void"); kept_ = a; }
   std::shared_ptr<Arg> kept() const { vf::rec("call gt::Keeper::kept@" + vf::R(*this) + "()=>" + vf::R(kept_.get())); return kept_; }
+  const Arg& keptRef() const { vf::rec("call gt::Keeper::keptRef@" + vf::R(*this) + "()=>" + vf::R(kept_.get())); return *kept_; }
   Arg copyOf(const Arg& a) const { vf::rec("call gt::Keeper::copyOf@" + vf::R(*this) + "(" + vf::R(a) + ")=>copy"); return Arg(a); }
   std::pair<Arg, std::shared_ptr<Arg>> both() const {
     vf::rec("call gt::Keeper::both@" + vf::R(*this) + "()=>(copy," + vf::R(kept_.get()) + ")");
